@@ -39,6 +39,7 @@ ASSUMPTIONS = [
 ]
 
 ASSUME = {"real": True, "sym_tensors": ["v"], "antisym_tensors": ["D"]}
+ASSUME_D = {"antisym_tensors": ["D"]}
 
 
 def _zoo():
@@ -175,10 +176,16 @@ def _deriv(name):
     raise KeyError(name)
 
 
-def _kinds(expr):
+def _kinds(expr, bks_names=None):
+    """(class, name, bra-ket symmetry) of every tensor object: the declared
+    bra-ket symmetry is part of the tensor kind (it decides which index
+    tuples are identified).  It is compared for the names whose symmetry the
+    re-applied assumptions declare (bks_names)."""
     out = set()
     for o in expr.atoms(SymbolicTensor):
-        out.add((type(o).__name__, o.name))
+        bks = int(getattr(o, "bra_ket_sym", 0) or 0)
+        out.add((type(o).__name__, o.name,
+                 bks if bks_names is None or o.name in bks_names else 0))
     return out
 
 
@@ -197,12 +204,17 @@ def _roundtrip(e0, assumptions, key, nontrivial=True):
                     detail=info + err)
     info += f"imported: {r2.sympy}\n"
     # kinds
-    k0, k1 = _kinds(e0.sympy), _kinds(r2.sympy)
+    declared = set(assumptions.get("sym_tensors") or ()) | \
+        set(assumptions.get("antisym_tensors") or ())
+    if assumptions.get("real"):
+        declared |= {"V", "f"}
+    k0, k1 = _kinds(e0.sympy, declared), _kinds(r2.sympy, declared)
     if k0 != k1:
         only0 = sorted(k0 - k1)
         only1 = sorted(k1 - k0)
         finding = "tensor-kind-changed"
-        if only0 and all(n == "D" for _, n in only0):
+        if only0 and all(n == "D" for _, n, _b in only0) and \
+                {c for c, _n, _b in only0} != {c for c, _n, _b in only1}:
             finding = "symbolic-denominator-imported-as-antisymmetric"
         return dict(base, status="violation", outcome="kinds",
                     finding=finding,
@@ -280,8 +292,17 @@ def run_case(case):
             return {"status": "skip", "key": repr(case), "outcome": "trivial",
                     "nontrivial": False, "transitions": 0}
         e0 = Expr(term, **ASSUME)
-        return _roundtrip(e0, ASSUME, repr(case),
-                          nontrivial=bool(term.atoms(Index)))
+        res = [_roundtrip(e0, ASSUME, repr(case),
+                          nontrivial=bool(term.atoms(Index)))]
+        if any(getattr(o, "name", None) == "D"
+               for o in term.atoms(SymbolicTensor)):
+            # complex basis, the bra-ket antisymmetry of the symbolic
+            # denominator as the ONLY tensor assumption (what
+            # use_symbolic_denominators() leaves on a complex expression)
+            e1 = Expr(term, **ASSUME_D)
+            res.append(_roundtrip(e1, ASSUME_D, repr((case, "antisym-only")),
+                                  nontrivial=True))
+        return res
     if kind == "s":
         _, names = case
         expr = S.Zero
